@@ -106,10 +106,10 @@ NODE_NOTE = ("Trusted base: TLC; the TLA+ specification (spec/FocaNode.tla trans
 
 def node_text(what, technique):
     return {
-        "level_text": ("The property's TLA+ monitor (spec/Mon%s.tla) is an invariant of MC_Node (one instance in an adversarial "
+        "level_text": ("The property's TLA+ monitor (spec/MonC<nn>.tla, named in `technique`) is an invariant of MC_Node (one instance in an adversarial "
                        "environment: every datagram kind from several generations per address incl. the instance's own, any "
                        "timer order, every public call; small moduli so that saturation and wrap-around are reached): checked "
-                       "by TLC exhaustively for a tiny scope and by random walks of depth 60 over the full alphabet. The same "
+                       "by TLC exhaustively for a tiny scope (thorough tier) and by random walks of depth 60 over the full alphabet; behaviours generated by TLC from that model are also replayed on the real code. The same "
                        "monitor is then evaluated by TLC on every step of ~10^5 (quick) / ~10^6 (thorough) recorded calls of the "
                        "real code, each of which is also checked for one-step conformance with the specification. " + what),
         "level_note": NODE_NOTE,
